@@ -28,6 +28,9 @@ def gen_values(rng, n, vtype):
         # floats that need all their digits (sums, thirds, neighbours that differ only beyond the 12th decimal)
         pool = [0.1 + 0.2, 0.3, 1 / 3, 2 / 3, 0.1 * 3 + 1e-13, 1 / 7, 3.141592653589793, 0.7000000000000001, 0.7, 1e-13, 2e-13, -1 / 3]
         return rng.sample(pool, n)
+    if vtype == "longstr":
+        # long labels (paths, run names) that agree in their first 30 characters and differ only at the very end
+        return ["experiment/batch-2024/config-alpha-run-%03d" % i for i in rng.sample(range(40), n)]
     if vtype == "strx":
         return rng.sample(STR_POOL + ["", " ", "None", "nan"], n)
     if vtype == "mixed":
@@ -53,7 +56,7 @@ def gen_vtype(rng, allow_mixed=False, exotic=False):
     r = rng.random()
     if exotic and r < 0.25:
         # legitimate but unusual argument values: booleans, numpy scalars, tuples, empty / odd strings
-        return rng.choice(["bool", "npint", "npfloat", "tuple", "strx", "longfloat", "longfloat"])
+        return rng.choice(["bool", "npint", "npfloat", "tuple", "strx", "longfloat", "longfloat", "longstr"])
     if allow_mixed and r < 0.06:
         return "mixed"
     return "int" if r < 0.45 else "float" if r < 0.75 else "str"
@@ -88,7 +91,9 @@ def gen_constants(rng, nmax=3, exclude=()):
     names = [c for c in CONST_POOL if c not in exclude]
     out = {}
     for name in rng.sample(names, min(k, len(names))):
-        out[name] = [rng.randint(-9, 9), round(rng.uniform(-2, 2), 3), rng.choice(STR_POOL)][rng.randrange(3)]
+        out[name] = [rng.randint(-9, 9), round(rng.uniform(-2, 2), 3), rng.choice(STR_POOL),
+                     # a constant whose printed form is long (a table of numbers, a path)
+                     rng.choice([tuple(range(100, 118)), "/scratch/projects/xyz/run-2024/input-parameters.json"])][rng.randrange(4)]
     return out
 
 
